@@ -1,6 +1,7 @@
 package rjson
 
 import (
+	"bytes"
 	"fmt"
 	"unicode"
 	"unicode/utf16"
@@ -38,6 +39,16 @@ func growBytesSliceCapacity(slice []byte, size int) []byte {
 	slice = slice[:origLen]
 
 	return slice
+}
+
+// remainingStringLen estimates how many bytes of data belong to the string that is being read:
+// the distance to the next double quote. data runs to the end of the document, which can be
+// much longer than the string, so its length is not a usable size hint for the destination.
+func remainingStringLen(data []byte) int {
+	if i := bytes.IndexByte(data, '"'); i >= 0 {
+		return i
+	}
+	return len(data)
 }
 
 func unescapeUnicodeChar(s, data []byte) (result []byte, bytesHandled int, ok bool) {
